@@ -280,7 +280,8 @@ def space(tier):
         p = P.program(tuple(name.split("+")))
         p["meta"] = {"kind": "fault"}
         units.append(({"program": p, "cfg": {"env_kinds": ["fault", "page"], "faults": FAULTS, "state_faults": ["5xx", "4xx"],
-                                             "page_modes": [0, 1, 4]}}, {"fault": 1, "page": 1, "total": 2}, cap))
+                                             "page_modes": [0, 1, 4]}},
+                      {"fault": 1, "page": 1, "total": 2} if quick else {"fault": 2, "page": 1, "total": 3}, cap))
         for pol in ("low", "high"):
             units.append(({"program": p, "cfg": {"env_kinds": ["fault"], "faults": ["5xx", "4xx"], "policy": pol}},
                           {"fault": 1, "total": 1}, cap))
